@@ -20,7 +20,8 @@ from .. import core, bldgen
 FAM = core.Family("bld")
 THREADS = [1, 2, 3, 5, 8, 16]
 MODES = ["single", "split", "workspace"]
-WORK = os.path.join(core.CACHE, "bld", "c17")
+# keyed by the repository the run looks at (PV_REPO copies) and by the process: concurrent runs never share a work directory
+WORK = os.path.join(core.CACHE, "bld", "c17_%s_%d" % ("repo" if os.path.realpath(core.REPO) == "/repo" else hashlib.sha1(os.path.realpath(core.REPO).encode()).hexdigest()[:8], os.getpid()))
 
 
 # ------------------------------------------------------------------------------------------------ corpora
@@ -279,7 +280,7 @@ def seeds_vary(hb):
     return {k: len(v) for k, v in seen.items()}
 
 
-def run(chk, replay=None):
+def _run(chk, replay=None):
     gate, hb = bldgen.std_setup(chk, FAM)
     chk.cov["checker_cmd"] = "make -C fam/bld/coq Properties/C17.vo && coqc -Q coq PV -Q fam/bld/coq PVBld Properties/C17.v (Print Assumptions allowlist, forbidden-vernacular grep)"
     chk.cov["trusted_base"] = core.TRUSTED_BASE[:3] + [
@@ -431,3 +432,10 @@ def run(chk, replay=None):
     # keep the cache small
     shutil.rmtree(os.path.join(WORK, "out"), ignore_errors=True)
     return chk.finish()
+
+
+def run(chk, replay=None):
+    try:
+        return _run(chk, replay)
+    finally:
+        shutil.rmtree(WORK, ignore_errors=True)      # per-process work directory: nothing in it is needed after the run
